@@ -98,26 +98,75 @@ Proof.
       apply S2. intros E. apply Hk. left. symmetry. exact E.
 Qed.
 
-Theorem st_generate_adms_spec st garm A gid_of :
+(* supplied + generated graph ids *)
+Lemma gid_for_cases supplied fresh ds x : In x (map (gid_for supplied fresh) ds) ->
+  In x (supplied_for supplied ds) \/ In x (map fresh (generated_ids supplied ds)).
+Proof.
+  induction ds as [|d ds IH]; simpl; [tauto|]. unfold gid_for at 1.
+  unfold supplied_for, generated_ids in *. simpl.
+  destruct (assoc d supplied) as [g|]; simpl.
+  - intros [H|H]; [left; left; exact H|]. destruct (IH H); [left; right|right]; assumption.
+  - intros [H|H]; [right; left; exact H|]. destruct (IH H); [left|right; right]; assumption.
+Qed.
+
+Lemma gid_for_fresh garm supplied fresh ds :
+  guids_ok garm supplied ds = true -> uuid_fresh garm supplied fresh ds ->
+  ~ In garm (map (gid_for supplied fresh) ds) /\ NoDup (map (gid_for supplied fresh) ds).
+Proof.
+  unfold guids_ok, uuid_fresh. rewrite andb_true_iff, negb_true_iff, memb_false, nodupb_NoDup.
+  intros [Hg Hn] [Ug [Un Ud]]. split.
+  - intros H. apply gid_for_cases in H. tauto.
+  - clear Hg Ug. induction ds as [|d ds IH]; simpl; [constructor|].
+    unfold supplied_for, generated_ids in *. simpl in *. unfold gid_for at 1.
+    destruct (assoc d supplied) as [g|] eqn:E; simpl in *.
+    + inversion Hn; subst. constructor.
+      * intros H. apply gid_for_cases in H. destruct H as [H|H]; [contradiction|].
+        apply in_map_iff in H. destruct H as [d' [E' H]]. apply (Ud d' H). left. symmetry. exact E'.
+      * apply IH; [assumption | assumption |]. intros d' Hd' Hi. apply (Ud d' Hd'). right. exact Hi.
+    + inversion Un; subst. constructor.
+      * intros H. apply gid_for_cases in H. destruct H as [H|H]; [|contradiction].
+        apply (Ud d (or_introl eq_refl)). exact H.
+      * apply IH; [assumption | assumption |]. intros d' Hd' Hi. apply (Ud d' (or_intror Hd')). exact Hi.
+Qed.
+
+Theorem st_generate_adms_spec st garm A supplied fresh :
   sget st garm = Some A -> wfb A = true -> gnodes A <> [] ->
   let ds := c_ids (catalog_delegations A) in
-  ~ In garm (map gid_of ds) -> NoDup (map gid_of ds) ->
-  exists st', st_generate_adms st garm gid_of = Ok (st', map (fun d => (d, gid_of d)) ds) /\
+  guids_ok garm supplied ds = true -> uuid_fresh garm supplied fresh ds ->
+  exists st', st_generate_adms st garm supplied fresh = (st', Ok (map (fun d => (d, gid_for supplied fresh d)) ds)) /\
     sget st' garm = Some A /\
-    (forall d, In d ds -> sget st' (gid_of d) = Some (adm_spec A d)) /\
-    (forall k, ~ In k (map gid_of ds) -> sget st' k = sget st k).
+    (forall d, In d ds -> sget st' (gid_for supplied fresh d) = Some (adm_spec A d)) /\
+    (forall k, ~ In k (map (gid_for supplied fresh) ds) -> sget st' k = sget st k).
 Proof.
-  intros HA Hw Hne ds Hfresh Hnd. unfold st_generate_adms. rewrite (sview_sget _ _ _ HA).
+  intros HA Hw Hne ds Hok Hu. destruct (gid_for_fresh garm supplied fresh ds Hok Hu) as [Hfresh Hnd].
+  unfold st_generate_adms. rewrite (sview_sget _ _ _ HA).
   destruct (node_ids A) eqn:E.
   { unfold node_ids in E. apply map_eq_nil in E. contradiction. }
-  rewrite <- E. fold ds.
-  set (dgs := map (fun d => (d, gid_of d)) ds).
-  assert (Hs : map snd dgs = map gid_of ds) by (unfold dgs; rewrite map_map; reflexivity).
+  rewrite <- E. fold ds. rewrite Hok.
+  set (dgs := map (fun d => (d, gid_for supplied fresh d)) ds).
+  assert (Hs : map snd dgs = map (gid_for supplied fresh) ds) by (unfold dgs; rewrite map_map; reflexivity).
   destruct (st_gen_all garm A (node_ids A) (catalog_delegations A) (stitch_nodes A) dgs st HA) as [G1 [G2 G3]];
     [rewrite Hs; exact Hfresh | rewrite Hs; exact Hnd |]. cbv zeta in G1, G2, G3.
   eexists. split; [reflexivity|]. split; [exact G1|]. split.
-  - intros d Hd. rewrite (G2 d (gid_of d)).
+  - intros d Hd. rewrite (G2 d (gid_for supplied fresh d)).
     + f_equal. apply gen_one_spec; [apply wfb_NoDup | apply wfb_edges_in]; exact Hw.
     + unfold dgs. apply in_map_iff. exists d. auto.
   - intros k Hk. apply G3. rewrite Hs. exact Hk.
+Qed.
+
+(* a call with a supplied graph id that is the ARM's own, or with a repeated one, is rejected before any effect *)
+Lemma st_generate_adms_rejects st garm supplied fresh :
+  guids_ok garm supplied (c_ids (catalog_delegations (sview st garm))) = false ->
+  st_generate_adms st garm supplied fresh = (st, Err EQuery).
+Proof.
+  intros H. unfold st_generate_adms. destruct (node_ids (sview st garm)); [reflexivity|]. rewrite H. reflexivity.
+Qed.
+
+Lemma st_generate_adms_ok_inv st garm supplied fresh st' dgs :
+  st_generate_adms st garm supplied fresh = (st', Ok dgs) ->
+  gnodes (sview st garm) <> [] /\ guids_ok garm supplied (c_ids (catalog_delegations (sview st garm))) = true.
+Proof.
+  unfold st_generate_adms. destruct (node_ids (sview st garm)) eqn:E; [discriminate|].
+  destruct (guids_ok _ _ _); [|discriminate]. intros _. split; [|reflexivity].
+  intros H. unfold node_ids in E. rewrite H in E. discriminate.
 Qed.
